@@ -11,7 +11,7 @@ MODEL_TARGETS = ['coq/C09/Run.vo']
 PROOF_TARGETS = ['coq/C09/Proofs.vo']
 PROPS_FILE = 'coq/Props/C09.v'
 RUN_MODULE = 'QCE.C09.Run'
-COQ_HEADER = 'From Gen Require Import Layouts.\nFrom QCE Require Import C09.Stim C09.Spec C09.Sem C09.Model.'
+COQ_HEADER = 'From Gen Require Import Layouts.\nFrom QCE Require Import C09.Stim C09.Spec C09.Sem C09.Model C09.Wf.'
 IMPL = 'harness/impl/c09_impl.py'
 SHARD = 24
 IMPL_KW = {'shards': 14}
@@ -36,7 +36,7 @@ ASSUMPTIONS = ['computational-basis initial states (ZERO / ONE) only, as the pro
                'qubits in chain order; the detector list is read as the outcome XOR the same ancilla\'s outcome two cycles earlier (alone in the '
                'first two cycles), which is what "deterministic" demands for every initial state',
                'noise-free execution: Stim without noise channels, 8 samples per circuit (64 per probe)']
-RULE = ('constructor inputs: chain descriptions for distance 1..6 and EVERY contiguous data-to-data sub-chain of the three shipped layouts (88 '
+RULE = ('constructor inputs: chain descriptions for distance 1..6 and EVERY contiguous data-to-data sub-chain of the three shipped layouts (6 + 82 '
         'descriptions), every computational-basis data state for d <= 3 with every cycle count 0..9 and refocusing on/off, every data state for d = 4, '
         'random states beyond; ancilla states absent (default 0) and explicit (all (data, ancilla) combinations for d = 2, 3); each input is built '
         'three times (as constructed / apply_modifiers() / apply_modifiers().flatten()) and executed by Stim; plus probe programs for every '
@@ -47,7 +47,7 @@ LEVEL_TEXT = ('Machine-checked (Coq) for EVERY description satisfying a decidabl
               'accumulated parities XOR prepared ancilla values, refocusing flips in every cycle but the last, final data values), the protocol\'s '
               'detector parities (0 from the third cycle on) and the observable; the program never leaves the product-state fragment and never '
               'measures an X-basis qubit; detector count (d-1)(cycles+1). Well-formedness is proved for the chain description of every distance and '
-              'by computation for all 88 sub-chains of the generated layout tables. The closed form, the description models and the semantics are '
+              'by computation for all 82 sub-chains of the generated layout tables. The closed form, the description models and the semantics are '
               'tied to the running code and to Stim on every generated input (instruction-for-instruction equality of the real export with the closed '
               'form in all three variants; exec = Stim\'s record / detector parities / observable), and the specification (protocol on bits, no '
               'circuit model) judges what Stim sampled from the real export.')
